@@ -97,6 +97,62 @@ class Interp:
         self.max_steps = max_steps
         self.trace = []
 
+    def globals_env(self):
+        if not hasattr(self, "_genv"):
+            self._genv = {}
+        return self._genv
+
+    def load_global(self, ref):
+        """value of a const-qualified global with an initialiser (tables of constants); key into globals_env()"""
+        from .model import N
+        name = ref.d["name"]
+        genv = self.globals_env()
+        if name in genv:
+            return name
+        g = [x for x in self.prog.globals if x["name"] == name and x.get("init")]
+        if not g or not g[0].get("const"):
+            raise Undecided("global %s is not a constant table" % name)
+        init = N(g[0]["init"], None, "init", None)
+        genv[name] = self.build_init(init, g[0]["ty"])
+        return name
+
+    def build_init(self, node, ty):
+        import re as _re
+        ty = (ty or "").replace("const ", "").strip()
+        n0 = node.strip(casts=True)
+        m = _re.match(r"^(.*?)\[(\d+)\]((?:\[\d+\])*)$", ty)
+        if m and n0.k == "InitListExpr":
+            elem_ty = (m.group(1).strip() + m.group(3)).strip()
+            size = int(m.group(2))
+            vals = [self.build_init(x, elem_ty) for x in n0.kids]
+            filler = None if elem_ty.endswith("*") else (0 if not elem_ty.startswith("struct") else None)
+            while len(vals) < size:
+                vals.append(filler)
+            return vals
+        if m and n0.k == "StringLiteral":
+            sz = int(m.group(2))
+            b = [ord(c) if ord(c) < 128 else ord(c) - 256 for c in n0.d.get("s", "")]
+            return (b + [0] * sz)[:sz]
+        if ty.startswith("struct ") and not ty.endswith("*") and n0.k == "InitListExpr":
+            rec = self.prog.record(ty.split()[1])
+            obj = {}
+            for f, x in zip(rec["fields"], n0.kids):
+                obj[f["name"]] = self.build_init(x, f["ty"])
+            for f in rec["fields"][len(n0.kids):]:
+                obj[f["name"]] = None if f["ty"].endswith("*") else 0
+            return obj
+        if n0.k == "StringLiteral":
+            return Ptr([ord(c) if ord(c) < 128 else ord(c) - 256 for c in n0.d.get("s", "")] + [0], 0)
+        if n0.k == "ImplicitValueInitExpr":
+            return None if ty.endswith("*") else 0
+        if "NULL" in node.mac or "NULL" in n0.mac:
+            return None
+        if n0.cv is not None:
+            return n0.cv
+        if n0.k in ("IntegerLiteral", "CharacterLiteral"):
+            return n0.d["v"]
+        raise Undecided("initialiser %s of a constant table" % n0.k)
+
     def new_struct(self, rec):
         r = self.prog.record(rec)
         obj = {}
@@ -250,6 +306,8 @@ class Interp:
         if k == "DeclRefExpr":
             did = n.d["did"]
             if did not in env:
+                if n.d.get("g"):
+                    return Ref(self.globals_env(), self.load_global(n))
                 raise Undecided("reference to %s outside the evaluated scope" % n.d["name"])
             return Ref(env, did)
         if k == "ArraySubscriptExpr":
@@ -332,6 +390,8 @@ class Interp:
                 return old if n.d.get("postfix") else new
             if op == "&":
                 r = self.lval(n.kids[0], env)
+                if isinstance(r.c, list) and isinstance(r.get(), dict):
+                    return Ptr(r.get())
                 if isinstance(r.c, list):
                     return Ptr(r.c, r.k)
                 v = r.get()
@@ -404,6 +464,14 @@ class Interp:
                 raise Undecided("malloc of a non-struct at %s" % n.loc)
             if f in IGNORED_CALLS:
                 return 0
+            if f in ("strlen", "strnlen") and n.args:
+                p_ = self.expr(n.args[0], env)
+                if isinstance(p_, Ptr) and isinstance(p_.arr, list):
+                    k_ = 0
+                    while p_.off + k_ < len(p_.arr) and p_.arr[p_.off + k_] != 0:
+                        k_ += 1
+                    return k_
+                raise Undecided("strlen of a non-constant string")
             if f and self.prog.functions.get(f) is not None:
                 args = [self.expr(a, env) for a in n.args]
                 return self.call(f, args)
